@@ -7,17 +7,21 @@
    type holds [-2^64, 2^64)), floats are their IEEE-754 binary64 bit pattern
    (`f64::to_bits`), text is its UTF-8 byte string.  Byte strings are `list N`.
 
-   Faithfulness notes (the model follows the code as it IS):
-   * `write_major` truncates its argument with `n as u64` in the 8-byte arm;
-     `enc_float` sends every integral float of magnitude <= 2^127 through
-     `enc_int`, so integral floats >= 2^64 are truncated (see CborProofs).
-   * the decoder converts major-1 integers through `i64::try_from`, so
-     [-2^64, -2^63) is rejected with `Decode("integer out of range")`.
-   * half-precision NaNs are accepted with any payload.
+   Faithfulness notes (the model follows the code as it IS, after the fixes f8fd569,
+   35fff59, 50eacdd in /repo):
+   * `enc_float` and `is_exact_int` take the integer path only for integral floats in
+     [-2^64, 2^64) (INT_MIN_F..INT_END_F); larger integral floats stay floats.
+   * major-1 integers decode through `Integer::try_from(i128)`, which cannot fail for
+     -(1+n), n < 2^64; `Decode("integer out of range")` is therefore unreachable and the
+     model never returns [EIntRange].
+   * half-precision NaNs other than 0x7e00 are rejected with NonCanonicalFloat (checked
+     before is_exact_int).
    * `round-then-compare` (`f16::from_f64(f).to_f64() == f`, `f as f32 as f64 == f`)
      is modelled as exact representability on the bit fields ([narrow]); the
      harness validates [narrow]/[widen] against the `half` crate and the Rust
      casts (all 2^16 halves, sampled f32/f64).
+   * `write_major` still truncates with `n as u64` in its 8-byte arm (unreachable from
+     `encode_value` now; kept because the model follows the function as written).
    * `Vec::with_capacity(len)` panics/aborts are outside this model (C13). *)
 From Coq Require Import List NArith ZArith Bool.
 From Echo Require Import Base.Bytes Base.Order.
@@ -30,7 +34,7 @@ Inductive err :=
 | EIncomplete | ETrailing | ETag | EIndefinite | ENonCanonInt | ENonCanonFloat
 | EFloatShouldBeInt | EMapKeyOrder | EMapKeyDup
 | EBadInfo        (* Decode("invalid length info") *)
-| EIntRange       (* Decode("integer out of range") *)
+| EIntRange       (* Decode("integer out of range"): unreachable in the code, never produced here *)
 | EUtf8           (* Decode("utf8: ...") *)
 | ESimple         (* Decode("simple value not supported") *)
 | EFuel.          (* model artefact; proved unreachable from [decode] *)
@@ -114,8 +118,8 @@ Definition narrow32 := narrow 8 23.
 
 Definition zsgn (s : N) (n : N) : Z := if s =? 0 then Z.of_N n else (- Z.of_N n)%Z.
 
-(* is_exact_int(f) together with the value of `f as i128` (saturating at 2^127):
-   Some z iff f is finite, integral and |f| <= 2^127. *)
+(* is_exact_int(f) together with the value of `f as i128`:
+   Some z iff f is finite, integral and -2^64 <= f < 2^64 (INT_MIN_F..INT_END_F). *)
 Definition f64_to_int (b : N) : option Z :=
   let s := fsign 11 52 b in
   let e := fexp 11 52 b in
@@ -125,9 +129,8 @@ Definition f64_to_int (b : N) : option Z :=
   else
     let sig := 2 ^ 52 + m in
     if 1075 <=? e then
-      if e <? 1150 then Some (zsgn s (shl sig (e - 1075)))
-      else if (e =? 1150) && (m =? 0)
-           then Some (if s =? 0 then (2 ^ 127 - 1)%Z else (- 2 ^ 127)%Z)
+      if e <? 1087 then Some (zsgn s (shl sig (e - 1075)))
+      else if (e =? 1087) && (m =? 0) && (s =? 1) then Some (- 2 ^ 64)%Z
            else None
     else
       let k := 1075 - e in
@@ -312,10 +315,11 @@ Fixpoint dec_map (d : bytes -> result (value * bytes)) (k : nat) (n : N) (last :
 Definition dec_float16 (r : bytes) : result (value * bytes) :=
   bind (read_uint 2 r) (fun '(h, r1) =>
     let f := widen16 h in
-    match f64_to_int f with
-    | Some _ => Err EFloatShouldBeInt
-    | None => Ok (VFloat f, r1)
-    end).
+    if f64_is_nan f && negb (h =? 0x7e00) then Err ENonCanonFloat
+    else match f64_to_int f with
+         | Some _ => Err EFloatShouldBeInt
+         | None => Ok (VFloat f, r1)
+         end).
 
 Definition dec_float32 (r : bytes) : result (value * bytes) :=
   bind (read_uint 4 r) (fun '(s, r1) =>
@@ -359,9 +363,8 @@ Fixpoint dec_value (fuel : nat) (b : bytes) : result (value * bytes) :=
           if major =? 0 then
             bind (read_len info r) (fun '(n, r1) => Ok (VInt (Z.of_N n), r1))
           else if major =? 1 then
-            bind (read_len info r) (fun '(n, r1) =>
-              if 2 ^ 63 <=? n then Err EIntRange        (* i64::try_from(-(1+n)) *)
-              else Ok (VInt (-1 - Z.of_N n)%Z, r1))
+            (* Integer::try_from(-(1 + n)) cannot fail for n < 2^64 *)
+            bind (read_len info r) (fun '(n, r1) => Ok (VInt (-1 - Z.of_N n)%Z, r1))
           else if (major =? 2) || (major =? 3) then
             bind (read_len info r) (fun '(n, r1) =>
               if lenN r1 <? n then Err EIncomplete
@@ -434,39 +437,6 @@ Fixpoint wf_value (v : value) : bool :=
   | VMap es => (lenN es <? 2 ^ 64) && forallb (fun kv => wf_value (fst kv) && wf_value (snd kv)) es
   | VTag t x => (t <? 2 ^ 64) && wf_value x
   end.
-
-Definition all_values (p : value -> bool) : value -> bool :=
-  fix go (v : value) : bool :=
-    p v &&
-    match v with
-    | VArray l => forallb go l
-    | VMap es => forallb (fun kv => go (fst kv) && go (snd kv)) es
-    | VTag _ x => go x
-    | _ => true
-    end.
-
-(* exclusion (F5): no integer below i64::MIN (the decoder converts major-1 integers through i64) *)
-Definition int_decodable (v : value) : bool :=
-  match v with VInt z => (- 2 ^ 63 <=? z)%Z | _ => true end.
-Definition no_int_below_i64 : value -> bool := all_values int_decodable.
-
-(* exclusion (F13): no integral float whose integer value lies outside [-2^63, 2^64)
-   (enc_float sends it through enc_int, where write_major truncates / the decoder's i64 limit applies) *)
-Definition float_int_in_range (v : value) : bool :=
-  match v with
-  | VFloat b => match f64_to_int b with
-                | Some z => ((- 2 ^ 63 <=? z) && (z <? 2 ^ 64))%Z
-                | None => true
-                end
-  | _ => true
-  end.
-Definition no_integral_float_outside_int_range : value -> bool := all_values float_int_in_range.
-
-(* exclusion (F4): every NaN in the value is the canonical NaN (what the decoder would produce if
-   it rejected half-precision NaN payloads) *)
-Definition nan_canonical (v : value) : bool :=
-  match v with VFloat b => negb (f64_is_nan b) || (b =? CANON_NAN) | _ => true end.
-Definition nans_canonical : value -> bool := all_values nan_canonical.
 
 (* ------------------------------------------------------------------ rendering (tie)
    ASCII text of a value, the same syntax the harness prints:
